@@ -219,6 +219,9 @@ def generate(seed, tier):
         tv = eqncases.ensure_cycle_var(block, rng)
         eqncases.wrap_function(block, rng, 'tick', target=tv)
         knobs['tick_var'] = tv
+    if S['swarm'].random() < 0.08 and not eqn.has_user_t(block) and not any(v == 't' for v, _ in block['ics']):
+        # an initial condition on the automatic time axis (t = k is still supplied by the parser)
+        block['ics'].append(['t', repr(float(S['swarm'].choice([1990, 2010, -3, 1])))])
     if S['swarm'].random() < 0.08 and case['expect']['misuse'] is None:
         knobs['maxtime_attr_late'] = S['swarm'].randint(0, case['expect']['T'] + 1)
     return case
